@@ -9,7 +9,11 @@ COPY=${COPY:-/tmp/mosmut}
 TIER=${TIER:-quick}
 SEEDS=${SEEDS:-1}
 mkdir -p $COPY
-rsync -a --delete --exclude target --exclude .git --exclude _out /repo/ $COPY/repo/
+# (checksum-based and without preserving times: a file that is restored after a previous patch gets a new mtime, so that
+# cargo rebuilds the crate it belongs to instead of reusing an artifact that still contains the previous patch)
+rsync -rlpc --delete --exclude target --exclude .git --exclude _out /repo/ $COPY/repo/
+# always rebuild both crates from what is in the copy now
+touch $COPY/repo/mos-core/src/lib.rs $COPY/repo/mos/src/main.rs
 ( cd $COPY/repo && patch -p1 --no-backup-if-mismatch < "$PATCH" ) || { echo "PATCH DID NOT APPLY"; exit 3; }
 if [ "${SKIP_SUITE:-0}" != "1" ]; then
   ( cd $COPY/repo && cargo test --workspace --no-fail-fast --offline --target-dir $COPY/target-suite 2>&1 | grep -E "^test result|FAILED|^error" | head -8 )
